@@ -553,6 +553,53 @@ emit(FILE* out, long idx, const Plan& p, const Result& r, const std::string& rep
 
 // run plan in a forked child; returns 0 ok, 1 violation/other, 2 crashed (signal or sanitizer exit code 77), 3 hang.
 // If out is given, the child's status/oracle/detail/hash are passed back through a pipe.
+std::string g_child_stderr; // path of the file that receives the stderr of forked children (sanitizer reports)
+
+// first frame of a sanitizer report that lies in the code under test: "crash:<function>" (else "crash")
+std::string
+crash_site_from_report(const std::string& path)
+{
+  std::ifstream f(path);
+  std::string line, kind;
+  while (std::getline(f, line))
+    {
+      size_t e = line.find("ERROR: AddressSanitizer: ");
+      if (e != std::string::npos && kind.empty())
+        {
+          kind = line.substr(e + 25);
+          size_t sp = kind.find(' ');
+          if (sp != std::string::npos)
+            kind = kind.substr(0, sp);
+        }
+      size_t in = line.find(" in ");
+      if (line.find("    #") == std::string::npos || in == std::string::npos)
+        continue;
+      if (line.find("/repo/src/") == std::string::npos)
+        continue;
+      std::string fn = line.substr(in + 4);
+      size_t par = fn.find('(');
+      if (par != std::string::npos)
+        fn = fn.substr(0, par);
+      size_t sp = fn.find(" /");
+      if (sp != std::string::npos)
+        fn = fn.substr(0, sp);
+      // drop template arguments for stability
+      std::string clean;
+      int depth = 0;
+      for (char c : fn)
+        {
+          if (c == '<')
+            ++depth;
+          else if (c == '>')
+            --depth;
+          else if (depth == 0 && c != ' ')
+            clean += c;
+        }
+      return "crash:" + (kind.empty() ? std::string("signal") : kind) + ":" + clean;
+    }
+  return kind.empty() ? "crash" : "crash:" + kind;
+}
+
 int
 run_in_child(const Harness& h, const Plan& p, int timeout_s, Result* out = nullptr)
 {
@@ -564,6 +611,15 @@ run_in_child(const Harness& h, const Plan& p, int timeout_s, Result* out = nullp
   if (pid == 0)
     {
       close(fds[0]);
+      if (!g_child_stderr.empty())
+        {
+          int efd = open(g_child_stderr.c_str(), O_WRONLY | O_CREAT | O_TRUNC, 0644);
+          if (efd >= 0)
+            {
+              dup2(efd, 2);
+              close(efd);
+            }
+        }
       alarm(timeout_s);
       Result r = execute(h, p);
       std::string msg = r.status + "\x01" + r.oracle + "\x01" + r.detail + "\x01" + std::to_string(r.hash);
@@ -731,17 +787,21 @@ main_driver(int argc, char** argv, Harness& h)
       Plan p = h.gen(mix(base_seed, (uint64_t)idx), tier, idx);
       p.prop = h.prop;
       Result c1, c2;
-      int rc1 = run_in_child(h, p, 600, &c1), rc2 = run_in_child(h, p, 600, &c2);
+      g_child_stderr = g_scratch + ".stderr";
+      int rc1 = run_in_child(h, p, 600, &c1);
+      const std::string site = rc1 == 2 ? crash_site_from_report(g_child_stderr) : std::string("crash");
+      int rc2 = run_in_child(h, p, 600, &c2);
       Result r;
       r.cls = "crash";
       std::string replay;
       if (rc1 >= 2 && rc2 == rc1)
         {
-          Minimiser m{ h, "crash", 120 };
-          m.pred = [&](const Plan& c) { return run_in_child(h, c, 600) == rc1; };
+          Minimiser m{ h, "crash", 40 };
+          m.pred = [&](const Plan& c) { return run_in_child(h, c, 600) == rc1 && (rc1 != 2 || crash_site_from_report(g_child_stderr) == site); };
           Plan mini = m.run(p);
+          ::unlink(g_child_stderr.c_str());
           r.status = "violation";
-          r.oracle = rc1 == 3 ? "hang" : "crash";
+          r.oracle = rc1 == 3 ? "hang" : site;
           r.detail = rc1 == 3 ? "run exceeded 600 s" : "process died (signal or sanitizer report) while executing the plan";
           replay = replay_dir + "/" + h.prop + "-" + std::to_string(p.seed) + ".json";
           write_replay(replay, h, p, mini, r, tier, m.used);
